@@ -380,3 +380,53 @@ package processors
 //@ ensures [fails-exactly-on-violation] (result1 == nil) == forall(k, int, implies(0 <= k && k < len(properties) && VChecked(properties[k]), VOk(properties[k])), properties[k])
 //@ loop 1 invariant [bounds] 0 <= _done && _done <= len(properties)
 //@ loop 1 invariant [valid-so-far] forall(k, int, implies(0 <= k && k < _done && VChecked(properties[k]), VOk(properties[k])), properties[k])
+
+// ---- tag scanning (C11): one Property per field that carries the processor's tag (or is claimed by its handler) -----
+//   PropSrc[j]   ghost: the index of the field the j-th created property belongs to
+//   PropPos[i]   ghost: the index of the property created for field i
+//   Tagged(d, f) field f carries the tag the processor looks for
+//@ ghost var PropSrc map[int]int
+//@ ghost var PropPos map[int]int
+//@ spec func Tagged(d *DefaultTagScanDefinitionRegistryPostProcessor, f *component_definition.Field) bool = d.Tag != "" && TagHas(f.StructField.Tag, d.Tag)
+
+// A handler (A-CALLBACK) only inspects the field: it writes nothing.
+//@ fieldfunc (DefaultTagScanDefinitionRegistryPostProcessor).ExtractHandler
+//@ requires [given] meta != nil && field != nil
+//@ assigns nothing
+
+//@ func (*DefaultTagScanDefinitionRegistryPostProcessor).PostProcessDefinitionRegistry
+//@ property C11 C09
+//@ requires [registry-given] d != nil && registry != nil
+//@ assigns registry.DefDom, registry.Def, RTop, mapcontents(registry.Def[componentName].propertyGroup), PropSrc, PropPos, GroupPos
+//@ ensures [never-fails] result == nil
+//@ ensures [component-memory-untouched] RMem == old(RMem)
+//@ assert before call SetProperties: [property-per-tagged-field] forall(i, int, implies(0 <= i && i < len(meta.Fields) && Tagged(d, meta.Fields[i]), 0 <= PropPos[i] && PropPos[i] < len(properties) && properties[PropPos[i]].Field == meta.Fields[i] && properties[PropPos[i]].Tag == d.Tag && properties[PropPos[i]].PropertyType == d.NodeType), meta.Fields[i])
+//@ assert before call SetProperties: [only-claimed-fields] forall(j, int, implies(0 <= j && j < len(properties), properties[j] != nil && 0 <= PropSrc[j] && PropSrc[j] < len(meta.Fields) && properties[j].Field == meta.Fields[PropSrc[j]] && (Tagged(d, meta.Fields[PropSrc[j]]) || d.ExtractHandler != nil)), properties[j])
+//@ assert before call SetProperties: [in-field-order] forall(a, int, forall(b, int, implies(0 <= a && a < b && b < len(properties), PropSrc[a] < PropSrc[b])))
+//@ ghost before call append #1: PropSrc = store(PropSrc, len(properties), _idx)
+//@ ghost before call append #1: PropPos = store(PropPos, _idx, len(properties))
+//@ ghost before call append #2: PropSrc = store(PropSrc, len(properties), _idx)
+//@ loop 1 invariant [bounds] 0 <= _done && _done <= len(meta.Fields) && FieldsInv(meta) && (backing(properties) == 0 || backing(properties) > old(top()))
+//@ loop 1 invariant [tagged-so-far] forall(i, int, implies(0 <= i && i < _done && Tagged(d, meta.Fields[i]), 0 <= PropPos[i] && PropPos[i] < len(properties) && properties[PropPos[i]].Field == meta.Fields[i] && properties[PropPos[i]].Tag == d.Tag && properties[PropPos[i]].PropertyType == d.NodeType), meta.Fields[i])
+//@ loop 1 invariant [claimed-so-far] forall(j, int, implies(0 <= j && j < len(properties), properties[j] != nil && fresh(properties[j]) && properties[j].args != nil && fresh(properties[j].args) && 0 <= PropSrc[j] && PropSrc[j] < _done && properties[j].Field == meta.Fields[PropSrc[j]] && (Tagged(d, meta.Fields[PropSrc[j]]) || d.ExtractHandler != nil)), properties[j])
+//@ loop 1 invariant [ordered-so-far] forall(a, int, forall(b, int, implies(0 <= a && a < b && b < len(properties), PropSrc[a] < PropSrc[b])))
+//@ loop 1 invariant [older-maps-kept] oldmapskept(map[component_definition.ArgType][]string)
+//@ loop 2 invariant [kept] 0 <= _done && FieldsInv(meta) && forall(j, int, implies(0 <= j && j < len(properties), properties[j] != nil && properties[j].args != nil && fresh(properties[j].args) && 0 <= PropSrc[j] && PropSrc[j] < len(meta.Fields) && properties[j].Field == meta.Fields[PropSrc[j]] && (Tagged(d, meta.Fields[PropSrc[j]]) || d.ExtractHandler != nil)), properties[j])
+//@ loop 2 invariant [tagged-kept] forall(i, int, implies(0 <= i && i < len(meta.Fields) && Tagged(d, meta.Fields[i]), 0 <= PropPos[i] && PropPos[i] < len(properties) && properties[PropPos[i]].Field == meta.Fields[i] && properties[PropPos[i]].Tag == d.Tag && properties[PropPos[i]].PropertyType == d.NodeType), meta.Fields[i])
+//@ loop 2 invariant [older-maps-kept] oldmapskept(map[component_definition.ArgType][]string)
+//@ loop 2 invariant [default-required-so-far] forall(j, int, implies(0 <= j && j < _done && d.Required, ArgIn(properties[j].args, component_definition.ArgRequired)), properties[j])
+
+// ---- logger injection (C11 frame): the only memory written is the field behind a logger-tagged property ----------------
+//@ func (*loggerAwarePostProcessors).PostProcessProperties
+//@ property C11 C09
+//@ implements container.InstantiationAwareComponentPostProcessor
+//@ ghost at return: Failed = old(Failed) || result1 != nil
+//@ requires [properties-wellformed] forall(k, int, implies(0 <= k && k < len(properties), PointOK(properties[k]) && properties[k].args != nil && RCanSet(properties[k].Value) && properties[k].Holder.Meta != nil), properties[k])
+//@ assigns RMem, Failed
+//@ ensures [never-fails] result1 == nil && result0 == properties
+//@ ensures [only-logger-fields-written] forall(l, int, implies(forall(k, int, implies(0 <= k && k < len(properties) && properties[k].Tag == definition.LoggerTag, l != RLoc(properties[k].Value))), RMem[l] == old(RMem[l])))
+// A-WIRING: a logger-tagged field has a type the container's logger value can be stored in (a field declared with a
+// wider interface than syslog.Logger would make reflect.Value.Set panic - noted in DESIGN.md, outside the listed properties).
+//@ assume before call Set: [logger-value-fits-field] RAssignable(RDynType(logger), RTypeOf(property.Value))
+//@ loop 1 invariant [bounds] 0 <= _done && _done <= len(properties)
+//@ loop 1 invariant [only-logger-fields-written] forall(l, int, implies(forall(k, int, implies(0 <= k && k < _done && properties[k].Tag == definition.LoggerTag, l != RLoc(properties[k].Value))), RMem[l] == old(RMem[l])))
